@@ -139,6 +139,71 @@ def build_and_run(cfg):
                  held=[len(getattr(m, "worker_thread_list", []) or []) for m in ms], steps=steps)
     return dict(log=log, stats=stats, error=err)
 
+def _tf(x):
+    """log time -> float seconds (ticks when exactly representable, else the repr of the float)"""
+    return t2f(x) if isinstance(x, int) else float(x)
+
+def edge_flow_judges(cfg, log):
+    """Property oracles on the per-edge movement log of one factory run (time, edge, put/get/sget, item id) — the node-driven
+    arrival and service patterns the closed-machine families do not produce.  Returns [(prop, rule, msg)].
+    Only claims that follow from the property texts for ANY schedule:
+      every edge : an item is retrieved only after it was put, and once per put (C02); never more than capacity inside (C01)
+      Buffer     : retrieved no earlier than put + delay (C11)
+      Fleet      : retrieved no earlier than put + one round trip = 2 x transit delay (C14)
+      conveyors  : retrieved no earlier than put + full belt travel; successive entries at least one item length of travel
+                   (one slot delay) apart; retrieved in entry order (C12)"""
+    V = []
+    EPS = 1e-6
+    per = {}
+    for (t, i, k, iid) in log:
+        if not isinstance(i, int) or i >= len(cfg["edges"]): continue
+        per.setdefault(i, []).append((_tf(t), k, iid))
+    for i, evs in per.items():
+        c = cfg["edges"][i]; kind = c["kind"]
+        # a retrieval through the edge API may be logged twice (edge.get and the wrapped store.get): keep one per call
+        seq = []
+        for j, (t, k, iid) in enumerate(evs):
+            if k == "get" and j > 0 and evs[j - 1] == (t, "sget", iid): continue
+            seq.append((t, "put" if k == "put" else "get", iid))
+        if kind == "buffer": cap, lag = c["cap"], t2f(c["delay"])
+        elif kind == "fleet": cap, lag = c["cap"], 2 * t2f(c["transit"])
+        elif kind == "slot": cap, lag = c["cap"], c["cap"] * t2f(c["delay"])
+        elif "speed" in c: cap, lag = int(c["length"] / c["ilen"]), c["length"] / c["speed"]
+        else: cap, lag = c["cap"], c["cap"] * t2f(c["p1"])
+        gap = None
+        if kind == "slot": gap = t2f(c["delay"])
+        elif kind == "cbelt":
+            # the spacing test of the library uses the length of the ITEM (one length per factory, see build_and_run)
+            ilens = [x["ilen"] for x in cfg["edges"] if "ilen" in x]
+            il = ilens[0] if ilens else 1
+            gap = (il / c["speed"]) if "speed" in c else il * t2f(c["p1"])
+        inside = {}        # item id -> put time
+        order = []         # ids in entry order, still inside
+        last_put = None
+        for (t, k, iid) in seq:
+            if k == "put":
+                if iid in inside:
+                    V.append(("C02", "flow-dup-put", f"edge {i} ({kind}): item {iid} put at {t} while it is still inside")); break
+                inside[iid] = t; order.append(iid)
+                if len(inside) > cap:
+                    V.append(("C01", "flow-capacity", f"edge {i} ({kind}, capacity {cap}) holds {len(inside)} items at t={t}")); break
+                if gap is not None and last_put is not None and t - last_put < gap - EPS:
+                    V.append(("C12", "flow-spacing", f"edge {i} ({kind}): items entered at {last_put} and {t}, less than one item length of travel ({gap}) apart")); break
+                last_put = t
+            else:
+                if iid not in inside:
+                    V.append(("C02", "flow-get-unknown", f"edge {i} ({kind}): item {iid} retrieved at {t} but it is not inside (never put, or retrieved twice)")); break
+                if t - inside[iid] < lag - EPS:
+                    p_ = {"buffer": "C11", "fleet": "C14"}.get(kind, "C12")
+                    V.append((p_, "flow-early", f"edge {i} ({kind}): item {iid} put at {inside[iid]} retrieved at {t}, earlier than the minimum {lag} after it entered")); break
+                # the destination is machine i (edge i feeds ms[i]); with one worker thread its retrievals are sequential, each
+                # right after its grant, so the order of the gets is the order in which the belt offered the items
+                single = i < cfg["nm"] and cfg["wc"][i] == 1
+                if kind in ("slot", "cbelt") and single and order and order[0] != iid:
+                    V.append(("C12", "flow-order", f"edge {i} ({kind}{' accumulating' if c.get('acc') else ''}): item {iid} retrieved at {t} before item {order[0]} that entered earlier")); break
+                del inside[iid]; order.remove(iid)
+    return V
+
 def digest(r):
     return hashlib.sha256(_json.dumps([r["log"], r["stats"], r["error"]], sort_keys=True).encode()).hexdigest()[:16]
 
@@ -153,6 +218,38 @@ def emit(seed, n):
 
 MIXED_BUDGET = {"quick": 40, "thorough": 600}
 
+FLOW_BUDGET = {"quick": 120, "thorough": 3000}
+
+def _flow_chunk(args):
+    seed, lo, hi = args
+    quiet()
+    out = []; kinds = {}; moves = 0; crashes = {}
+    cfgs = configs(seed, hi)[lo:hi]
+    for c in cfgs:
+        a = build_and_run(c)
+        moves += len(a["log"])
+        for e in c["edges"]: kinds[e["kind"]] = kinds.get(e["kind"], 0) + 1
+        if a["error"]: crashes[a["error"].split(":")[0]] = crashes.get(a["error"].split(":")[0], 0) + 1
+        for (p, rule, msg) in edge_flow_judges(c, a["log"]): out.append((p, rule, msg, c))
+    return out, kinds, moves, crashes
+
+def run_flow_family(tier, seed):
+    """one run per factory, per-edge flow judges only (C01 C02 C11 C12 C14); returns the same shape as run_mixed_family"""
+    import multiprocessing
+    n = FLOW_BUDGET[tier]
+    nproc = 1 if n <= 200 else 14
+    step = (n + nproc - 1) // nproc
+    chunks = [(seed + 500, i, min(n, i + step)) for i in range(0, n, step)]
+    if nproc == 1: res = [_flow_chunk(chunks[0])]
+    else:
+        with multiprocessing.Pool(nproc) as pool: res = pool.map(_flow_chunk, chunks)
+    V = []; kinds = {}; moves = 0; crashes = {}
+    for out, k, m, cr in res:
+        V += out; moves += m
+        for a, b in k.items(): kinds[a] = kinds.get(a, 0) + b
+        for a, b in cr.items(): crashes[a] = crashes.get(a, 0) + b
+    return dict(n=n, viol=V, kinds=kinds, crashes=crashes, hashseeds=[], movements=moves)
+
 def run_mixed_family(tier, seed):
     """returns dict(n, viol=[(prop, rule, msg, cfg)], kinds, crashes, hashseed_runs)"""
     n = MIXED_BUDGET[tier]
@@ -160,6 +257,8 @@ def run_mixed_family(tier, seed):
     first = [build_and_run(c) for c in cfgs]
     second = [build_and_run(c) for c in cfgs]
     V = []
+    for c, a in zip(cfgs, first):
+        for (p, rule, msg) in edge_flow_judges(c, a["log"]): V.append((p, rule, msg, c))
     kinds = {}
     for c in cfgs:
         for e in c["edges"]: kinds[e["kind"]] = kinds.get(e["kind"], 0) + 1
